@@ -308,8 +308,8 @@ func (l *Lexer) readString() string {
 	position := l.position + 1
 	for l.ch != 0 {
 		l.readChar()
-		// check for quote escapes
-		if l.ch == '\\' && l.peekChar() == '"' {
+		// check for quote escapes (there may be several in a row)
+		for l.ch == '\\' && l.peekChar() == '"' {
 			l.readChar()
 			l.readChar()
 		}
